@@ -158,6 +158,8 @@ def main_runs(ck):
     c_text.write_tree(ind, files)
     for i, hs in enumerate(["0", "1", "2", "3", "4", "5", "7", "random"]):
         outd = os.path.join(base, "out%d" % i)
+        if i in (1, 4):     # the output tree already exists and holds longer files (an earlier run on another version of the configs)
+            c_text.write_tree(outd, {n: "! left over from an earlier run\n" * 200 for n in files})
         # (a salt whose first character is outside the $9$ alphabet: the fallback salt character must not depend on the process)
         rc, err = c_text.run_main(["-a", "-p", "-s", "_S1 salt", "-w", ",".join(WORDS + ["netops", "net"]), "-n", "65001,12", "-i", ind, "-o", outd], hashseed=hs)
         tree = c_text.read_tree(outd) if os.path.isdir(outd) else {}
@@ -202,6 +204,10 @@ def main_history(ck):
     runs = [("fresh process", [target + ["-o", os.path.join(base, "t0")]], "t0"),
             ("after three other runs in the same process", decoys + [target + ["-o", os.path.join(base, "t1")]], "t1"),
             ("second identical run in the same process", [target + ["-o", os.path.join(base, "t2a")], target + ["-o", os.path.join(base, "t2")]], "t2")]
+    # the same options on OTHER configs first (other secrets, addresses, words): nothing of that run may be carried into the next one
+    ind2 = os.path.join(base, "in2")
+    c_text.write_tree(ind2, {"o%d.cfg" % i: "hostname other%d\nenable secret 0therS3cret%dXq\nsnmp-server community 0therComm%dZ RO\nip address 20.30.%d.1 255.255.255.0\n" % (i, i, i, i) for i in range(3)})
+    runs.append(("after a run with the same options on other configs", [target[:-1] + [ind2, "-o", os.path.join(base, "d4")], target + ["-o", os.path.join(base, "t3")]], "t3"))
     for name, seq, outname in runs:
         p = subprocess.run([sys.executable, "-c", _MAIN_SEQ % common.REPO], input=json.dumps(seq), stdout=subprocess.PIPE, stderr=subprocess.PIPE, text=True,
                            env=dict(os.environ, PYTHONHASHSEED="0"))
